@@ -1471,7 +1471,24 @@ impl Property for C11 {
     }
     fn run(&self, seed: u64, index: usize, tier: &str) -> Result<RunReport, String> {
         let run_seed = run_seed(seed, "C11", tier, index);
-        let scn = generate(run_seed);
+        // the first indices of every batch are the exhaustive fault-placement stratum:
+        // quick = fault-free runs and every single placement, thorough = also all pairs
+        let singles_only = tier != "thorough";
+        let stratum = if singles_only {
+            crate::c11enum::count_singles()
+        } else {
+            crate::c11enum::count()
+        };
+        let enumerated = if index < stratum {
+            crate::c11enum::enumerated(index, singles_only)
+        } else {
+            None
+        };
+        let is_enumerated = enumerated.is_some();
+        let scn = match enumerated {
+            Some(scn) => scn,
+            None => generate(run_seed),
+        };
         let mut stats = RunStats::default();
         let violations = check(&scn, &mut stats)?;
         let mut counters: BTreeMap<String, u64> = BTreeMap::new();
@@ -1482,6 +1499,9 @@ impl Property for C11 {
             counters.insert(format!("probe:{}", k), *v);
         }
         counters.insert(format!("backend:{:?}", scn.backend), 1);
+        if is_enumerated {
+            counters.insert("enumerated_fault_placements".to_owned(), 1);
+        }
         counters.insert("files_total".to_owned(), stats.files as u64);
         counters.insert("healthy_files".to_owned(), stats.healthy_ratio_num);
         counters.insert("expected_files".to_owned(), stats.healthy_ratio_den);
@@ -1591,6 +1611,15 @@ impl Property for C11 {
         json!({
             "real": ["WorkerTree", "Worker", "WorkCache", "Options", "Configuration (json5)", "all rules", "bundler", "path locators", "parser", "3 generators", "DarkluaError", "Source::Memory arm (1/6 of runs)"],
             "stub": ["Source::FileSystem arm (std::fs) -> SimFs via hook H1"],
+        })
+    }
+    fn extra_evidence(&self) -> serde_json::Value {
+        json!({
+            "exhaustive_stratum": {
+                "what": "3 fixed projects x {output, in place} x {fail-fast off, on}: the fault-free run, every single fault placement (target file x applicable fault kind), and (thorough) every pair of placements on two different targets; enumerated completely at the start of every batch",
+                "fault_free_and_single_placements": crate::c11enum::count_singles(),
+                "including_pairs": crate::c11enum::count(),
+            }
         })
     }
     fn sample(&self, scenario: &Scenario) -> serde_json::Value {
